@@ -132,7 +132,27 @@ Proof.
     set (m0 := mkMsg _ _ _ (m_rx m ++ bs) _ _ _ _ _ _ _ _ _ _).
     destruct (IH m0 ps' err k Hst Hcap Hf ltac:(cbn [m0 m_rx]; rewrite Hall; exact Hk) Hroom) as (ret & m' & ps'' & E' & H').
     { assert (Hle : rc <= total_len ps).
-      { rewrite <- Hbl at 1. rewrite Hbs. unfold ztake, zlen, total_len. rewrite firstn_length. lia. }
+      { rewrite <- Hbl at 1. rewrite Hbs. unfold ztake, total_len. unfold zlen at 1. rewrite firstn_length. unfold zlen. lia. }
       assert (total_len ps' = total_len ps - rc) by (unfold total_len; rewrite Hps', zlen_zdrop; unfold total_len in *; lia). lia. }
     exists ret, m', ps''. split; [exact E'|exact H'].
+Qed.
+
+(* two fragmentations of the same bytes: same boundary *)
+Lemma header_boundary_two_fragmentations_proof :
+  forall (is_req : bool) (cap fill verb : Z) (bytes : bytes) (ps1 ps2 : pieces) (err1 err2 : bool) (k : Z),
+    concat ps1 = bytes -> concat ps2 = bytes -> find_term bytes = Some k ->
+    0 < cap < 65536 -> k + 3 + MAX_TRANSFER_BYTES + (MAX_TRANSFER_BYTES + RESERVED_INDEX_SIZE) < cap ->
+    exists r1 m1 q1 r2 m2 q2,
+      receive_header (rh_fuel ps1) (msg_init is_req cap fill verb) ps1 err1 = Some (r1, m1, q1) /\
+      receive_header (rh_fuel ps2) (msg_init is_req cap fill verb) ps2 err2 = Some (r2, m2, q2) /\
+      fst (m_body m1) = fst (m_body m2) /\ fst (m_body m1) = u16 (k + 4) /\ r1 <> 2 /\ r2 <> 2.
+Proof.
+  intros is_req cap fill verb bytes ps1 ps2 err1 err2 k H1 H2 Hk Hcap Hroom.
+  destruct (header_boundary_proof (rh_fuel ps1) (msg_init is_req cap fill verb) ps1 err1 k eq_refl Hcap eq_refl
+              ltac:(cbn [msg_init m_rx app]; rewrite H1; exact Hk) Hroom ltac:(unfold rh_fuel, total_len, zlen; lia))
+    as (r1 & m1 & q1 & E1 & Hn1 & Hb1).
+  destruct (header_boundary_proof (rh_fuel ps2) (msg_init is_req cap fill verb) ps2 err2 k eq_refl Hcap eq_refl
+              ltac:(cbn [msg_init m_rx app]; rewrite H2; exact Hk) Hroom ltac:(unfold rh_fuel, total_len, zlen; lia))
+    as (r2 & m2 & q2 & E2 & Hn2 & Hb2).
+  exists r1, m1, q1, r2, m2, q2. splits; auto. congruence.
 Qed.
